@@ -1,5 +1,5 @@
 # replay of a bounded stand-in violation (C11): re-run native/c11_compilers.py
 import sys
-print("passive n=6 modes=[4, 1] gates=[('MZgate', (4, 1)), ('MZgate', (1, 4)), ('Rgate', (4,)), ('Fouriergate', (4,)), ('Fouriergate', (1,)), ('MZgate', (1, 4)), ('Rgate', (4,)), ('MZgate', (4, 1)), ('BSgate', (1, 4)), ('Fouriergate', (4,)), ('BSgate', (4, 1)), ('Fouriergate', (1,)), ('MZgate', (1, 4)), ('Rgate', (4,)), ('LossChannel', (4,))]: compile raised CircuitError: The operation Fouriergate cannot be used with the compiler 'passive'.")
+print("gaussian_merge n=4 gates=[('BSgate', (1, 2)), ('BSgate', (1, 0)), ('S2gate', (1, 2)), ('Vgate', (2,)), ('Rgate', (2,)), ('Rgate', (2,)), ('S2gate', (1, 2)), ('CKgate', (0, 3)), ('Rgate', (3,)), ('MZgate', (0, 2)), ('BSgate', (3, 0)), ('Vgate', (2,)), ('Sgate', (1,)), ('Dgate', (3,)), ('Sgate', (0,))]: with the opaque gates interpreted as fixed unitaries the compiled program [('GaussianTransform', [0, 1, 2]), ('CKgate', [0, 3]), ('Vgate', [2]), ('Vgate', [2]), ('GaussianTransform', [0, 1, 2, 3]), ('Dgate', [3]), ('MeasureFock', [0, 1, 2, 3])] computes something else (max difference 1.87)")
 print('REPLAY-VIOLATION')
 sys.exit(1)
